@@ -162,5 +162,5 @@ pub fn property(tier: Tier) -> Property {
             exhaustive: false,
         }));
     }
-    Property { id: "C06", stages, assumptions: vec!["cost functions are strictly monotone; the Bellman-Ford reference iterates min over eg.enodes() only".into()] }
+    Property { id: "C06", scale: tier.pick(5, 2), stages, assumptions: vec!["cost functions are strictly monotone; the Bellman-Ford reference iterates min over eg.enodes() only".into()] }
 }
